@@ -208,6 +208,15 @@ fn random_graph(rng: &mut Rng, n_lo: usize, n_hi: usize, accesses: bool) -> (Vec
                 _ => wr.push(t),
             }
         }
+        // a declaration may list a type twice
+        if !rd.is_empty() && rng.chance(1, 8) {
+            let t = rd[rng.below(rd.len())];
+            rd.push(t);
+        }
+        if !wr.is_empty() && rng.chance(1, 10) {
+            let t = wr[rng.below(wr.len())];
+            wr.push(t);
+        }
         // declaration order must not matter
         rng.shuffle(&mut rd);
         rng.shuffle(&mut wr);
